@@ -47,9 +47,9 @@ impl Parser<'_, '_> {
             };
             self.take_token_raw().await?;
 
-            while self.newline_and_here_doc_contents().await? {}
-
             let maybe_pipeline = loop {
+                while self.newline_and_here_doc_contents().await? {}
+
                 if let Rec::Parsed(maybe_pipeline) = self.pipeline().await? {
                     break maybe_pipeline;
                 }
